@@ -9,6 +9,7 @@ import (
 	"strings"
 	"time"
 
+	"github.com/cloudwego/hertz/pkg/network"
 	"github.com/cloudwego/hertz/pkg/network/standard"
 )
 
@@ -311,11 +312,15 @@ func init() {
 		// in: ops "M12" (Malloc + fill), "W5000" (WriteBinary), "F" (Flush)
 		Check: func(t *T, in In) []Finding {
 			sc := &srcConn{}
-			conn := standard.NewConnForVerif(sc, 4096)
+			var conn network.Writer = standard.NewConnForVerif(sc, 4096)
+			if len(in) > 1 && in.N(1) == 1 { // the generic writer of pkg/network (used over any io.Writer) instead of the standard connection
+				conn = network.NewWriter(&sc.out)
+			}
 			var want []byte
 			pos := 0
 			var fs []Finding
 			var pending [][]byte // caller buffers that must stay valid until Flush
+			var pendingCopy [][]byte
 			for _, o := range strings.Split(in.S(0), ",") {
 				if o == "" {
 					continue
@@ -340,7 +345,8 @@ func init() {
 					b := make([]byte, n, n+64)
 					copy(b, patBytes(pos, n))
 					conn.WriteBinary(b)
-					pending = append(pending, b)
+					pending = append(pending, b[:cap(b)])
+					pendingCopy = append(pendingCopy, append([]byte(nil), b[:cap(b)]...))
 					want = append(want, b...)
 					pos += n
 				case 'F':
@@ -351,7 +357,14 @@ func init() {
 						fs = append(fs, Finding{Kind: "oracle", Unit: "c13.writer", Class: "peer-did-not-receive-the-concatenation", Impl: fmt.Sprintf("got %d bytes want %d; first difference at %d", sc.out.Len(), len(want), firstDiff(sc.out.Bytes(), want))})
 						return fs
 					}
-					pending = nil
+					// the writer may keep a caller's buffer until Flush, but never writes into it (nor into its spare capacity)
+					for i := range pending {
+						if !bytes.Equal(pending[i], pendingCopy[i]) {
+							fs = append(fs, Finding{Kind: "oracle", Unit: "c13.writer", Class: "writer-changed-a-caller-buffer", Impl: fmt.Sprintf("buffer %d, first difference at %d", i, firstDiff(pending[i], pendingCopy[i]))})
+							return fs
+						}
+					}
+					pending, pendingCopy = nil, nil
 				}
 			}
 			return fs
@@ -362,9 +375,12 @@ func init() {
 			for _, a := range []int{1, 8, 100, 4095} {
 				for _, b := range []int{4096, 4097, 9000} {
 					for _, c := range []int{1, 8, 100, 3000, 4095} {
-						t.Do(In{S(fmt.Sprintf("M%d,W%d,M%d,F", a, b, c))}, true)
-						t.Do(In{S(fmt.Sprintf("M%d,F,W%d,F,M%d,F", a, b, c))}, true)
-						t.Do(In{S(fmt.Sprintf("W%d,M%d,W%d,M%d,F", b, a, b, c))}, true)
+						for wk := 0; wk < 2; wk++ {
+							t.Do(In{S(fmt.Sprintf("M%d,W%d,M%d,F", a, b, c)), Nn(wk)}, true)
+							t.Do(In{S(fmt.Sprintf("M%d,F,W%d,F,M%d,F", a, b, c)), Nn(wk)}, true)
+							t.Do(In{S(fmt.Sprintf("W%d,M%d,W%d,M%d,F", b, a, b, c)), Nn(wk)}, true)
+							t.Do(In{S(fmt.Sprintf("W%d,M%d,W%d,F", b, min(c, 60), a)), Nn(wk)}, true) // a small reservation right after a zero-copy write
+						}
 					}
 				}
 			}
@@ -385,7 +401,7 @@ func init() {
 					}
 				}
 				ops = append(ops, "F")
-				t.Do(In{S(strings.Join(ops, ","))}, true)
+				t.Do(In{S(strings.Join(ops, ",")), Nn(i % 2)}, true)
 			}
 		}})
 }
